@@ -10,6 +10,7 @@ import (
 	"time"
 
 	"github.com/mit-pdos/go-nfsd/fh"
+	"github.com/mit-pdos/go-nfsd/fstxn"
 	"github.com/mit-pdos/go-nfsd/inode"
 	"github.com/mit-pdos/go-nfsd/nfs"
 	"github.com/mit-pdos/go-nfsd/nfstypes"
@@ -50,6 +51,20 @@ type seqRun struct {
 	lastDump string
 	lastFree [2]uint64
 	nOracle  int
+	sink     func(string)      // where this run's lines go (default: stdout)
+	slotHook func() int        // concurrent mode: the slot captured under the locks
+	pool     []string          // concurrent mode: shared pool of names
+	inline   bool              // concurrent mode: run calls in the calling goroutine
+	curDesc  string
+	locks    bool              // sequential mode: print the lock trace of every operation
+}
+
+func (s *seqRun) emitf(format string, a ...interface{}) {
+	if s.sink != nil {
+		s.sink(fmt.Sprintf(format, a...))
+		return
+	}
+	emit(format, a...)
 }
 
 func hx(b []byte) string {
@@ -87,6 +102,23 @@ func (s *seqRun) guarded(desc string, f func()) bool {
 	if s.dead {
 		return false
 	}
+	if s.inline {
+		s.curDesc = desc
+		// concurrent mode: the call must run in the client's own goroutine (the hooks identify
+		// the client by goroutine); hangs are caught by the history's watchdog
+		ok := true
+		func() {
+			defer func() {
+				if r := recover(); r != nil {
+					s.emitf("# PANIC %v :: %s", r, desc)
+					s.dead = true
+					ok = false
+				}
+			}()
+			f()
+		}()
+		return ok
+	}
 	done := make(chan string, 1)
 	go func() {
 		defer func() {
@@ -100,13 +132,13 @@ func (s *seqRun) guarded(desc string, f func()) bool {
 	select {
 	case msg := <-done:
 		if msg != "" {
-			emit("# %s :: %s", msg, desc)
+			s.emitf("# %s :: %s", msg, desc)
 			s.dead = true
 			return false
 		}
 		return true
 	case <-time.After(s.opTimeout):
-		emit("# HANG :: %s", desc)
+		s.emitf("# HANG :: %s", desc)
 		s.dead = true
 		return false
 	}
@@ -126,6 +158,9 @@ func attrShort(a nfstypes.Fattr3) string {
 // findSlot lists directory dfh with the real READDIR and returns the slot
 // index of name (the cookie of an entry is the offset of the following slot).
 func (s *seqRun) findSlot(dfh []byte, name string) int {
+	if s.slotHook != nil {
+		return s.slotHook()
+	}
 	slot := -1
 	s.guarded("findSlot", func() {
 		rep := s.srv.NFSPROC3_READDIR(nfstypes.READDIR3args{Dir: mkfh3(dfh), Cookie: 0, Count: 0xffffffff})
@@ -162,12 +197,20 @@ func (s *seqRun) count(op string, st nfstypes.Nfsstat3) {
 		}
 	}
 	s.cur = nil
+	if !s.inline && s.locks {
+		if evs := takeSeqEvents(); len(evs) > 0 {
+			s.emitf("# LOCKS %s :: %s", op, lockTrace(evs))
+		}
+	}
 	s.afterOp(op, st != nfstypes.NFS3_OK)
+	if !s.inline && s.locks {
+		takeSeqEvents() // the oracle's own requests are not part of the trace
+	}
 }
 
 func (s *seqRun) oracle(prop, key, msg string) {
 	s.nOracle++
-	emit("# ORACLE %s %s %s", prop, key, msg)
+	s.emitf("# ORACLE %s %s %s", prop, key, msg)
 }
 
 func (s *seqRun) opGetattr(h []byte) {
@@ -179,12 +222,12 @@ func (s *seqRun) opGetattr(h []byte) {
 	}
 	s.count("getattr", rep.Status)
 	if rep.Status == nfstypes.NFS3_OK {
-		emit("%s => 0 %s", desc, attrToks(rep.Resok.Obj_attributes))
+		s.emitf("%s => 0 %s", desc, attrToks(rep.Resok.Obj_attributes))
 		if o, ok := s.objs[hx(h)]; ok {
 			o.size = uint64(rep.Resok.Obj_attributes.Size)
 		}
 	} else {
-		emit("%s => %d", desc, rep.Status)
+		s.emitf("%s => %d", desc, rep.Status)
 	}
 }
 
@@ -221,12 +264,12 @@ func (s *seqRun) opSetattr(h []byte, size *uint64, at, mt timeHow) {
 	}
 	s.count("setattr", rep.Status)
 	if rep.Status == nfstypes.NFS3_OK {
-		emit("%s => 0 %s", desc, attrToks(rep.Resok.Obj_wcc.After.Attributes))
+		s.emitf("%s => 0 %s", desc, attrToks(rep.Resok.Obj_wcc.After.Attributes))
 		if o, ok := s.objs[hx(h)]; ok {
 			o.size = uint64(rep.Resok.Obj_wcc.After.Attributes.Size)
 		}
 	} else {
-		emit("%s => %d", desc, rep.Status)
+		s.emitf("%s => %d", desc, rep.Status)
 	}
 }
 
@@ -256,10 +299,10 @@ func (s *seqRun) opLookup(dfh []byte, name string) {
 	s.count("lookup", rep.Status)
 	if rep.Status == nfstypes.NFS3_OK {
 		a := rep.Resok.Obj_attributes.Attributes
-		emit("%s => 0 %s %s", desc, hx(rep.Resok.Object.Data), attrShort(a))
+		s.emitf("%s => 0 %s %s", desc, hx(rep.Resok.Object.Data), attrShort(a))
 		s.learn(dfh, name, rep.Resok.Object.Data, uint32(a.Ftype), uint64(a.Size))
 	} else {
-		emit("%s => %d", desc, rep.Status)
+		s.emitf("%s => %d", desc, rep.Status)
 	}
 }
 
@@ -272,9 +315,9 @@ func (s *seqRun) opAccess(h []byte) {
 	}
 	s.count("access", rep.Status)
 	if rep.Status == nfstypes.NFS3_OK {
-		emit("%s => 0 %d", desc, rep.Resok.Access)
+		s.emitf("%s => 0 %d", desc, rep.Resok.Access)
 	} else {
-		emit("%s => %d", desc, rep.Status)
+		s.emitf("%s => %d", desc, rep.Status)
 	}
 }
 
@@ -288,9 +331,9 @@ func (s *seqRun) opReadlink(h []byte) {
 	s.count("readlink", rep.Status)
 	if rep.Status == nfstypes.NFS3_OK {
 		d := []byte(rep.Resok.Data)
-		emit("%s => 0 %d 0 %s", desc, len(d), hx(d))
+		s.emitf("%s => 0 %d 0 %s", desc, len(d), hx(d))
 	} else {
-		emit("%s => %d", desc, rep.Status)
+		s.emitf("%s => %d", desc, rep.Status)
 	}
 }
 
@@ -309,9 +352,9 @@ func (s *seqRun) opRead(h []byte, off uint64, cnt uint32) {
 		if rep.Resok.Eof {
 			e = 1
 		}
-		emit("%s => 0 %d %d %s", desc, rep.Resok.Count, e, hx(rep.Resok.Data))
+		s.emitf("%s => 0 %d %d %s", desc, rep.Resok.Count, e, hx(rep.Resok.Data))
 	} else {
-		emit("%s => %d", desc, rep.Status)
+		s.emitf("%s => %d", desc, rep.Status)
 	}
 }
 
@@ -328,12 +371,12 @@ func (s *seqRun) opWrite(h []byte, off uint64, cnt uint32, stable uint32, data [
 	s.count("write", rep.Status)
 	if rep.Status == nfstypes.NFS3_OK {
 		a := rep.Resok.File_wcc.After.Attributes
-		emit("%s => 0 %d %d %d", desc, rep.Resok.Count, rep.Resok.Committed, a.Size)
+		s.emitf("%s => 0 %d %d %d", desc, rep.Resok.Count, rep.Resok.Committed, a.Size)
 		if o, ok := s.objs[hx(h)]; ok {
 			o.size = uint64(a.Size)
 		}
 	} else {
-		emit("%s => %d", desc, rep.Status)
+		s.emitf("%s => %d", desc, rep.Status)
 	}
 }
 
@@ -391,14 +434,14 @@ func (s *seqRun) opCreate(kind string, dfh []byte, name string, mode uint32, tar
 		if s.dead {
 			return
 		}
-		emit("%s ; %d %d => 0 %s %s", desc, inumOf(obj.Handle.Data), slot, hx(obj.Handle.Data), attrShort(attr))
+		s.emitf("%s ; %d %d => 0 %s %s", desc, inumOf(obj.Handle.Data), slot, hx(obj.Handle.Data), attrShort(attr))
 		if s.issued[hx(obj.Handle.Data)] {
 			s.oracle("C08", "handle-issued-twice", fmt.Sprintf("%s returned the handle %s, which an earlier creation had returned for another object", kind, hx(obj.Handle.Data)))
 		}
 		s.issued[hx(obj.Handle.Data)] = true
 		s.learn(dfh, name, obj.Handle.Data, uint32(attr.Ftype), uint64(attr.Size))
 	} else {
-		emit("%s => %d", desc, status)
+		s.emitf("%s => %d", desc, status)
 	}
 }
 
@@ -427,7 +470,7 @@ func (s *seqRun) opSimple(proc string, h []byte, name string) {
 		}
 	}
 	s.count(proc, st)
-	emit("%s => %d", desc, st)
+	s.emitf("%s => %d", desc, st)
 }
 
 func (s *seqRun) forget(dfh []byte, name string) {
@@ -440,7 +483,9 @@ func (s *seqRun) forget(dfh []byte, name string) {
 		delete(s.objs, hx(ch))
 		delete(s.dirs, hx(ch))
 		s.stale = append(s.stale, ch)
-		s.deadH[hx(ch)] = true
+		if !s.inline { // under concurrency another client may have rebound the name: the remembered handle need not be the removed object
+			s.deadH[hx(ch)] = true
+		}
 	}
 }
 
@@ -459,7 +504,7 @@ func (s *seqRun) opRemove(proc string, dfh []byte, name string) {
 		return
 	}
 	s.count(proc, st)
-	emit("%s => %d", desc, st)
+	s.emitf("%s => %d", desc, st)
 	if st == nfstypes.NFS3_OK {
 		s.forget(dfh, name)
 	}
@@ -483,7 +528,7 @@ func (s *seqRun) opRename(ffh []byte, fname string, tfh []byte, tname string) {
 		if s.dead {
 			return
 		}
-		emit("%s ; %d => 0", desc, slot)
+		s.emitf("%s ; %d => 0", desc, slot)
 		// update the generator's knowledge
 		fd, ok1 := s.dirs[hx(ffh)]
 		td, ok2 := s.dirs[hx(tfh)]
@@ -494,7 +539,9 @@ func (s *seqRun) opRename(ffh []byte, fname string, tfh []byte, tname string) {
 						delete(s.objs, hx(old))
 						delete(s.dirs, hx(old))
 						s.stale = append(s.stale, old)
-						s.deadH[hx(old)] = true
+						if !s.inline {
+							s.deadH[hx(old)] = true
+						}
 					}
 					delete(fd.names, fname)
 					td.names[tname] = ch
@@ -502,7 +549,7 @@ func (s *seqRun) opRename(ffh []byte, fname string, tfh []byte, tname string) {
 			}
 		}
 	} else {
-		emit("%s => %d", desc, st)
+		s.emitf("%s => %d", desc, st)
 	}
 }
 
@@ -517,7 +564,7 @@ func (s *seqRun) opReaddir(h []byte, cookie uint64, count uint32) {
 	}
 	s.count("readdir", rep.Status)
 	if rep.Status != nfstypes.NFS3_OK {
-		emit("%s => %d", desc, rep.Status)
+		s.emitf("%s => %d", desc, rep.Status)
 		return
 	}
 	var es []string
@@ -532,7 +579,7 @@ func (s *seqRun) opReaddir(h []byte, cookie uint64, count uint32) {
 	if len(es) > 0 {
 		l = strings.Join(es, ",")
 	}
-	emit("%s => 0 %d %s", desc, eof, l)
+	s.emitf("%s => 0 %d %s", desc, eof, l)
 }
 
 func (s *seqRun) opReaddirplus(h []byte, cookie uint64, dircount, maxcount uint32) {
@@ -547,13 +594,22 @@ func (s *seqRun) opReaddirplus(h []byte, cookie uint64, dircount, maxcount uint3
 	}
 	s.count("readdirplus", rep.Status)
 	if rep.Status != nfstypes.NFS3_OK {
-		emit("%s => %d", desc, rep.Status)
+		s.emitf("%s => %d", desc, rep.Status)
 		return
 	}
 	var es []string
 	for e := rep.Resok.Reply.Entries; e != nil; e = e.Nextentry {
 		a := e.Name_attributes.Attributes
-		es = append(es, fmt.Sprintf("%d:%s:%d:%d:%d:%s", e.Fileid, hx([]byte(e.Name)), e.Cookie, a.Ftype, a.Size, hx(e.Name_handle.Handle.Data)))
+		if !e.Name_attributes.Attributes_follow || !e.Name_handle.Handle_follows {
+			// the server omitted attributes and handle (entry not lockable in order)
+			es = append(es, fmt.Sprintf("%d:%s:%d", e.Fileid, hx([]byte(e.Name)), e.Cookie))
+			continue
+		}
+		sz := fmt.Sprintf("%d", a.Size)
+		if s.inline {
+			sz = "*" // concurrent mode: a child's size is read under the child's lock only
+		}
+		es = append(es, fmt.Sprintf("%d:%s:%d:%d:%s:%s", e.Fileid, hx([]byte(e.Name)), e.Cookie, a.Ftype, sz, hx(e.Name_handle.Handle.Data)))
 		if string(e.Name) != "." && string(e.Name) != ".." {
 			s.learn(h, string(e.Name), e.Name_handle.Handle.Data, uint32(a.Ftype), uint64(a.Size))
 		}
@@ -566,7 +622,7 @@ func (s *seqRun) opReaddirplus(h []byte, cookie uint64, dircount, maxcount uint3
 	if len(es) > 0 {
 		l = strings.Join(es, ",")
 	}
-	emit("%s => 0 %d %s", desc, eof, l)
+	s.emitf("%s => 0 %d %s", desc, eof, l)
 }
 
 func b01(b bool) int {
@@ -585,11 +641,11 @@ func (s *seqRun) opFsinfo(h []byte) {
 	}
 	s.count("fsinfo", rep.Status)
 	if rep.Status != nfstypes.NFS3_OK {
-		emit("%s => %d", desc, rep.Status)
+		s.emitf("%s => %d", desc, rep.Status)
 		return
 	}
 	r := rep.Resok
-	emit("%s => 0 %d %d %d %d %d %d %d %d %d", desc, r.Rtmax, r.Rtpref, r.Rtmult, r.Wtmax, r.Wtpref, r.Wtmult, r.Dtpref, r.Maxfilesize, r.Properties)
+	s.emitf("%s => 0 %d %d %d %d %d %d %d %d %d", desc, r.Rtmax, r.Rtpref, r.Rtmult, r.Wtmax, r.Wtpref, r.Wtmult, r.Dtpref, r.Maxfilesize, r.Properties)
 }
 
 func (s *seqRun) opPathconf(h []byte) {
@@ -601,11 +657,11 @@ func (s *seqRun) opPathconf(h []byte) {
 	}
 	s.count("pathconf", rep.Status)
 	if rep.Status != nfstypes.NFS3_OK {
-		emit("%s => %d", desc, rep.Status)
+		s.emitf("%s => %d", desc, rep.Status)
 		return
 	}
 	r := rep.Resok
-	emit("%s => 0 %d %d %d %d %d %d", desc, r.Linkmax, r.Name_max, b01(r.No_trunc), b01(r.Chown_restricted), b01(r.Case_insensitive), b01(r.Case_preserving))
+	s.emitf("%s => 0 %d %d %d %d %d %d", desc, r.Linkmax, r.Name_max, b01(r.No_trunc), b01(r.Chown_restricted), b01(r.Case_insensitive), b01(r.Case_preserving))
 }
 
 func (s *seqRun) opCommit(h []byte, off uint64, cnt uint32) {
@@ -618,7 +674,7 @@ func (s *seqRun) opCommit(h []byte, off uint64, cnt uint32) {
 		return
 	}
 	s.count("commit", rep.Status)
-	emit("%s => %d", desc, rep.Status)
+	s.emitf("%s => %d", desc, rep.Status)
 }
 
 func (s *seqRun) opMnt(path string) {
@@ -627,7 +683,7 @@ func (s *seqRun) opMnt(path string) {
 	if !s.guarded(desc, func() { rep = s.srv.MOUNTPROC3_MNT(nfstypes.Dirpath3(path)) }) {
 		return
 	}
-	emit("%s => %d %s", desc, rep.Fhs_status, hx(rep.Mountinfo.Fhandle))
+	s.emitf("%s => %d %s", desc, rep.Fhs_status, hx(rep.Mountinfo.Fhandle))
 }
 
 func (s *seqRun) opRestart() {
@@ -641,7 +697,7 @@ func (s *seqRun) opRestart() {
 		return
 	}
 	s.hist["restart:ok"]++
-	emit("restart => 0")
+	s.emitf("restart => 0")
 }
 
 // ---- generators ----
@@ -717,6 +773,9 @@ func (s *seqRun) mkData(n int) []byte {
 
 func (s *seqRun) freshName() string {
 	r := s.r
+	if s.pool != nil && !r.Chance(1, 8) {
+		return s.pool[r.Intn(len(s.pool))]
+	}
 	s.nameCtr++
 	base := fmt.Sprintf("n%d", s.nameCtr)
 	switch k := r.Intn(40); {
@@ -1006,8 +1065,13 @@ func cmdSeq(fs *flag.FlagSet, args []string) {
 	c09 := fs.Bool("c09", false, "compare full dumps and free counts around every failing operation")
 	c10 := fs.Int("c10", 0, "every N operations: coherence of caches/allocators with the disk, restart and recovery comparison")
 	limits := fs.Bool("limits", true, "probe the announced limits")
+	locks := fs.Bool("locks", false, "print the lock/commit event trace of every operation")
 	fs.Parse(args)
 	root := NewRng(*seed)
+	if *locks {
+		fstxn.VerifObserver = seqObserver
+		defer func() { fstxn.VerifObserver = nil }()
+	}
 	total := map[string]int{}
 	merge := func(s *seqRun) {
 		for k, v := range s.hist {
@@ -1019,6 +1083,8 @@ func cmdSeq(fs *flag.FlagSet, args []string) {
 			s := newSeqRun(root.Fork(), *disksz, true)
 			emit("# scenario %s", sc.name)
 			s.c09 = *c09
+			s.locks = *locks
+			takeSeqEvents()
 			sc.run(s)
 			s.scanAll()
 			if *c10 > 0 {
@@ -1033,6 +1099,8 @@ func cmdSeq(fs *flag.FlagSet, args []string) {
 		s := newSeqRun(root.Fork(), *disksz, unstable)
 		emit("# sequence %d unstable=%v", i, unstable)
 		s.c09 = *c09
+		s.locks = *locks
+		takeSeqEvents()
 		for j := 0; j < *nops && !s.dead; j++ {
 			s.randomOp(*big)
 			if *c10 > 0 && j%*c10 == *c10-1 {
